@@ -38,8 +38,32 @@ fn check_vehicle_load_assignment(context: &CheckerContext) -> GenericResult<()> 
                     },
                 )?;
 
-                let end_capacity =
-                    interval.iter().try_fold::<_, _, GenericResult<_>>(start_delivery, |acc, (idx, (from, to))| {
+                let get_load_change = |stop: &Stop, is_interval_start: bool| {
+                    stop.activities().iter().try_fold::<_, _, GenericResult<_>>(
+                        MultiDimLoad::default(),
+                        |acc, activity| {
+                            let activity_type = context.get_activity_type(tour, stop, activity)?;
+                            let (demand_type, demand) = match activity.activity_type.as_str() {
+                                // NOTE the interval starts with the load taken at departure or reload
+                                "departure" | "reload" if is_interval_start => {
+                                    (DemandType::None, MultiDimLoad::default())
+                                }
+                                "arrival" | "reload" => (DemandType::StaticDelivery, end_pickup),
+                                _ => get_demand(context, activity, &activity_type)?,
+                            };
+
+                            Ok(match demand_type {
+                                DemandType::StaticDelivery | DemandType::DynamicDelivery => acc - demand,
+                                DemandType::StaticPickup | DemandType::DynamicPickup => acc + demand,
+                                DemandType::None | DemandType::StaticPickupDelivery => acc,
+                            })
+                        },
+                    )
+                };
+
+                let end_capacity = interval.iter().enumerate().try_fold::<_, _, GenericResult<_>>(
+                    start_delivery,
+                    |acc, (leg_idx, (idx, (from, to)))| {
                         let from_load = MultiDimLoad::new(from.load().clone());
                         let to_load = MultiDimLoad::new(to.load().clone());
 
@@ -47,24 +71,10 @@ fn check_vehicle_load_assignment(context: &CheckerContext) -> GenericResult<()> 
                             return Err(format!("load exceeds capacity in tour '{}'", tour.vehicle_id).into());
                         }
 
-                        let change = to.activities().iter().try_fold::<_, _, GenericResult<_>>(
-                            MultiDimLoad::default(),
-                            |acc, activity| {
-                                let activity_type = context.get_activity_type(tour, to, activity)?;
-                                let (demand_type, demand) =
-                                    if activity.activity_type == "arrival" || activity.activity_type == "reload" {
-                                        (DemandType::StaticDelivery, end_pickup)
-                                    } else {
-                                        get_demand(context, activity, &activity_type)?
-                                    };
-
-                                Ok(match demand_type {
-                                    DemandType::StaticDelivery | DemandType::DynamicDelivery => acc - demand,
-                                    DemandType::StaticPickup | DemandType::DynamicPickup => acc + demand,
-                                    DemandType::None | DemandType::StaticPickupDelivery => acc,
-                                })
-                            },
-                        )?;
+                        // NOTE the load of a stop is reported after all its activities: jobs can be served at the
+                        // first stop of the interval too
+                        let acc = if leg_idx == 0 { acc + get_load_change(from, true)? } else { acc };
+                        let change = get_load_change(to, false)?;
 
                         let is_from_valid = from_load == acc;
                         let is_to_valid = to_load == from_load + change;
@@ -80,7 +90,8 @@ fn check_vehicle_load_assignment(context: &CheckerContext) -> GenericResult<()> 
 
                             Err(format!("load mismatch {} in tour '{}'", message, tour.vehicle_id).into())
                         }
-                    })?;
+                    },
+                )?;
 
                 Ok(end_capacity - end_pickup)
             })
